@@ -7,6 +7,17 @@ from pathlib import Path
 VERIF = Path(__file__).resolve().parent.parent
 
 CHECKS = {
+    "C02": dict(
+        technique="property-based exploration of trajectories with structured action generators (corner / held / pumping rules), validity predicates on every output (process pool over all environments)",
+        text="All 19 built-in environments (5 classic control, 11 MuJoCo, 3 Unitree G1) x constructor configurations x wrapper stacks: "
+        "vmapped trajectories through the Gym-style step inside one lax.scan, per-segment action rules drawn from {space sample, low "
+        "corner, high corner, zero/middle, held corner, energy pumping}; every observation is checked against the declared space "
+        "(shape, dtype, bounds, NaN; plus the space's own contains on a sample), sampled actions are members, rewards finite float "
+        "scalars, flags boolean scalars, repeated calls with a second environment object constructed in between are identical. The "
+        "runner asserts that MountainCar/Acrobot/Pendulum trajectories actually reach a bound.",
+        design="DESIGN.md §4 C02",
+        note="Trusted: reachability through the auto-resetting step only; float32 default mode. Compile-bound for MuJoCo/G1 (one configuration each in the quick tier). 11 mutants.",
+    ),
     "C01": dict(
         technique="stateful (rule-based machine) property-based testing with a reference interpreter; Hypothesis @given over boundary-biased states for built-in envs",
         text="Hypothesis rule-based machine (reset/step) over seeded pools of wrapper stacks (depth 0-4, all wrapper kinds) on generated "
